@@ -796,6 +796,7 @@ func Systematic(bases []*Pkg, tier string, seed int64, stats map[string]int) []*
 			for v := 0; v < 2; v++ {
 				add(base, f, "anon-params"+strconv.Itoa(v), sysAnonParams(base, f, v), nil)
 			}
+			add(base, f, "unicode-strings", sysUnicodeStrings(f), nil)
 			{
 				eds, extra := sysSplitDecls(base, f)
 				extraFiles = extra
